@@ -284,6 +284,20 @@ theorem exempt_iff (cfg : ArbCfg) (uf : List Nat) (st : ArbSt) (jid : Nat) :
       | none => simp [h0, hp]
       | some p => simp [h0, hp, and_assoc]
 
+/-- **missing_pod_bypass_counterexample** (open finding C16:arb-missing-pod-bypasses-limits): without the exempt
+    side the bound is false on the code as written — `filtering(nil)` passes a job whose pod is gone without
+    consulting any limit.  MaxMigratingGlobally = 1, pod 1 has a Running job, job 2 waits for a deleted pod:
+    after the round two jobs are running or passed although the limit was not exceeded before. -/
+theorem missing_pod_bypass_counterexample :
+    ¬ (∀ (cfg : ArbCfg) (st : ArbSt) (order : List Nat), WF st → gateSkipped cfg 5 = false → 0 < cfg.maxGlobal →
+        cntGlobal (round cfg [] st order) ≤ max cfg.maxGlobal.toNat (cntGlobal st)) := by
+  intro h
+  have := h { maxGlobal := 1, maxNode := -1, maxNs := -1, maxMigr := -1, maxUnav := -1, replicas := [(1, 5)] }
+    { pods := [⟨1, 1, 1, 1, true, false, false, 0⟩], jobs := [⟨1, 1, 1, 2, true⟩, ⟨2, 9, 1, 0, false⟩], waiting := [2] }
+    [2] (by decide) (by decide) (by decide)
+  revert this
+  decide
+
 /-- a round keeps the state well-formed, so `round_inv` applies to every round of a history -/
 theorem round_keeps_wf (cfg : ArbCfg) (uf : List Nat) (st : ArbSt) (order : List Nat) (w : WF st) :
     WF (round cfg uf st order) := round_wf cfg uf order st w
